@@ -8,7 +8,7 @@
 //
 // One JSON object per case on stdout.
 //
-// usage: c08op <nStreams>
+// usage: c08op <nStreams> [all|fill|agg|limit|merge]
 package main
 
 import (
@@ -458,7 +458,20 @@ func main() {
 	if len(os.Args) > 1 {
 		n, _ = strconv.Atoi(os.Args[1])
 	}
+	mode := "all"
+	if len(os.Args) > 2 {
+		mode = os.Args[2]
+	}
 	r := gen.FromEnv(88)
+	if mode == "all" || mode == "fill" {
+		runFillCases(r, n)
+	}
+	if mode == "all" || mode == "agg" {
+		runAggCases(r, n, nil)
+	}
+}
+
+func runFillCases(r *gen.Rand, n int) {
 	for i := 0; i < n; i++ {
 		s := genStream(r)
 		total := len(flatten(s))
